@@ -89,3 +89,41 @@ func VerifC20_q_configDecodeValidates() {
 		verifAssert("C20/decoded-excludes-neighbour", !p.Contains(before) || nets.IPToInt(r.First) == 0, "Contains accepts the address right before an accepted range that no range lists")
 	}
 }
+
+// BOUND: finite family of range strings: the valid forms (single address, first~last, first~first, both ends of the address space) and malformed ones (empty, separator only, missing end, reversed, three parts, trailing separator, trailing garbage, blanks, a CIDR, a hostname; IPv6 text is outside the claim); ParseIPRange accepts exactly the valid forms and String() of the result is the canonical text; the same through IPRange's and the pool's JSON decoders
+func VerifC20_q_rangeStringForms() {
+	forms := []struct {
+		text  string
+		canon string // "" = must be rejected
+	}{
+		{"10.1.0.10", "10.1.0.10"},
+		{"10.1.0.10~10.1.0.12", "10.1.0.10~10.1.0.12"},
+		{"10.1.0.10~10.1.0.10", "10.1.0.10"},
+		{"0.0.0.0~255.255.255.255", "0.0.0.0~255.255.255.255"},
+		{"", ""},
+		{"~", ""},
+		{"10.1.0.10~", ""},
+		{"~10.1.0.10", ""},
+		{"10.1.0.12~10.1.0.10", ""},
+		{"10.1.0.10~10.1.0.12~10.1.0.14", ""},
+		{"10.1.0.10~10.1.0.12~", ""},
+		{"10.1.0.10~10.1.0.12~x", ""},
+		{"10.1.0.10 ~10.1.0.12", ""},
+		{"10.1.0.0/24", ""},
+		{"localhost", ""},
+	}
+	c := forms[nondetChoice(len(forms))]
+	r := nets.ParseIPRange(c.text)
+	verifReach("range-parsed")
+	verifAssert("C20/range-string-accepted-iff-valid", (r != nil) == (c.canon != ""), "ParseIPRange's verdict on "+c.text+" differs from the documented forms")
+	if r != nil && c.canon != "" {
+		verifAssert("C20/range-string-canonical", r.String() == c.canon, "String() of the parsed range "+c.text+" is "+r.String()+", expected "+c.canon)
+	}
+	// the same text inside a pool configuration
+	text := `{"nodeSubnets":["10.0.1.0/24"],"ips":["` + c.text + `"],"subnet":"0.0.0.0/1","gateway":"10.1.0.1"}`
+	var p FloatingIPPool
+	err := json.Unmarshal([]byte(text), &p)
+	if c.canon == "" {
+		verifAssert("C20/pool-rejects-malformed-range", err != nil, "the pool decoder accepts the malformed range string "+c.text)
+	}
+}
